@@ -8,87 +8,87 @@ HERE = Path(__file__).resolve().parent.parent
 CHECKS = {
     "C01": dict(
         technique="exhaustive small-scope enumeration + Hypothesis random search against a set-comprehension reference model of the rule semantics",
-        text="Every import relation over a fixed 5-module tree x every unrelated rule instantiation is compared with an independent reference verdict (thorough: three trees, root targets, bounded edge subsets on 6/7-module trees), followed by seeded Hypothesis search over larger random trees. Bounded exploration, not proof: complete only up to the stated tree/batch sizes.",
+        text="Every import relation over a fixed 5-module tree x every unrelated rule instantiation is compared with an independent reference verdict (thorough: three trees, root targets, bounded edge subsets on 6/7-module trees), followed by seeded Hypothesis search over larger random trees; a slice of both tiers applies every rule object to a second architecture first (re-use must not matter) and gives a named side as an equivalent anchored regex. Bounded exploration, not proof: complete only up to the stated tree/batch sizes.",
         note="Trusts the reference model in pbt/models.py (reading of LANGUAGE_DEFINTION.md 'Semantics' and the property text) and the direct graph construction NetworkxGraph(modules, [AbsoluteImport]) also used by the repository's tests.",
         ref="5 C01"),
     "C03": dict(
         technique="exhaustive small-scope enumeration + Hypothesis; parsed violation message and public query results compared as sets with the reference violating set",
-        text="Same space as C01; every AssertionError message is parsed line by line and compared (both inclusions) with the reference report, and the three public query methods are compared with the model's pair sets for every graph and subject/object choice.",
+        text="Same space as C01; every AssertionError message is parsed line by line and compared (both inclusions) with the reference report, and the three public query methods are compared with the model's pair sets for every graph and subject/object choice; reports of failing layer rules (C05's space) are compared the same way with the reference layer semantics, including the layer tag of every module; rule objects are re-used across architectures in a slice of the cases.",
         note="Trusts pbt/models.py and the line grammar in pbt/msgparse.py (taken from the documented message table); module names are identifiers.",
         ref="5 C03"),
     "C02": dict(
         technique="grammar-enumerated AST slot paths x import forms (exhaustive to depth 2/3) + Hypothesis project trees, differential against a name-resolution reference model",
-        text="Every statement-list position of the running interpreter's grammar, nested to depth 2 (thorough 3), times every import form is rendered into compiling source files, scanned, and the resulting import edges compared in both directions with the targets the statements name.",
+        text="Every statement-list position of the running interpreter's grammar, nested to depth 2 (thorough 3), times every import form is rendered into compiling source files, scanned, and the resulting import edges compared in both directions with the targets the statements name; some files are stored with a byte order mark or an encoding declaration.",
         note="Trusts ast.unparse/compile of the running CPython and the target-resolution rules written from the property text; imports of own ancestors are outside the claim.",
         ref="5 C02"),
     "C04": dict(
         technique="Hypothesis directory trees + exhaustive small tree families; scan compared with a path-derived reference, sub-scan vs restriction (metamorphic), two entry points (differential)",
-        text="Random and enumerated directory trees are written to disk and scanned from every module_path; module set, hierarchy edges, sub-module queries, the sub-scan/restriction law, the two import renderings and the module-object entry point are compared.",
+        text="Random and enumerated directory trees are written to disk and scanned from every module_path; module set, hierarchy edges, sub-module queries, the sub-scan/restriction law, four import renderings (fully qualified, relative to module_path's parent as import and as from-import, relative from-imports), sibling sub-scans, a repeated scan and the module-object entry point (packages with and without __init__.py) are compared; the root directory's name may recur or be a string prefix below it.",
         note="Real temporary directories; no symlinks, no x.py next to x/.",
         ref="5 C04"),
     "C05": dict(
         technique="exhaustive small-scope enumeration + Hypothesis against a set-comprehension reference model of the layer semantics",
-        text="Import relations over small trees x layer partitions x named/regex definitions x all layer rules, compared with an independent layer verdict; random larger cases.",
+        text="Import relations over small trees x layer partitions x named/regex definitions x all layer rules, compared with an independent layer verdict; random larger cases incl. layers that list a module with its own descendant, regexes with an open root component, and layer-rule objects that are applied to another architecture first.",
         note="Trusts pbt/models.layer_analysis; layers list pairwise-unrelated modules; regex layers are $-anchored.",
         ref="5 C05"),
     "C06": dict(
         technique="grammar-based generation of PlantUML text from a random component relation (exhaustive two-component form matrix + Hypothesis), round-trip oracle",
-        text="Diagrams are rendered from a known relation in every documented declaration/reference/arrow form and parsed back; the parsed components and dependencies must equal the relation.",
-        note="Documented subset only (one block per file, aliases on bracketed declarations, no leading blanks).",
+        text="Diagrams are rendered from a known relation in every documented declaration/reference/arrow form and parsed back; the parsed components and dependencies must equal the relation; sequences of diagrams are parsed one after the other (an alias token of one is a component name of the next).",
+        note="Documented subset only (one block per file, aliases on all three declaration forms, no leading or trailing blanks).",
         ref="5 C06"),
     "C07": dict(
         technique="exhaustive component/arrow/import enumeration + Hypothesis against the conformance formula; aggregated message compared with the union of per-rule reference reports; naming options compared differentially",
-        text="All arrow relations x all import relations over 2 (thorough 3) components, both modes and both naming options, plus random larger diagrams.",
+        text="All arrow relations x all import relations over 2 (thorough 3) components, both modes and both naming options, plus random larger diagrams; DiagramRule objects are re-targeted, switched between the naming options and applied to a second architecture, and must behave like fresh ones.",
         note="Trusts models.diagram_conforms and the documented rule generation for expected failure lines.",
         ref="5 C07"),
     "C08": dict(
         technique="exhaustive string enumeration of the glob-to-regex converter against literal glob semantics + Hypothesis trees with exclusion tuples compared with a pruned-tree reference and glob-vs-regex differential",
-        text="7.4 million (pattern, subject) pairs over a metacharacter alphabet, and filtered scans of random trees compared with the unfiltered scan minus the excluded subtrees.",
+        text="7.4 million (pattern, subject) pairs over a metacharacter alphabet, and filtered scans of random trees (glob tuples, equivalent regexes, free-form regexes, with and without external libraries, the documented call forms exclusions=() and regex_exclusions alone) compared with the unfiltered scan minus the excluded subtrees.",
         note="Patterns are matched against str(absolute path).",
         ref="5 C08"),
     "C09": dict(
         technique="metamorphic: scan(level_limit=k) vs quotient of scan(None), and rule verdicts on both (Hypothesis trees + fixed project exhaustively over k/module_path)",
-        text="The flattened architecture must equal the computed quotient graph and preserve the verdict of every sampled rule over names above the limit.",
+        text="The flattened architecture must equal the computed quotient graph (k from 0 to beyond the depth, absolute and relative imports, imports of names that are not modules, externals) and preserve the verdict of every sampled rule over names above the limit, also for a rule object applied to both.",
         note="Relates two scans of the same tree; quotient computed by pbt/models.quotient.",
         ref="5 C09"),
     "C11": dict(
         technique="metamorphic: compact (regex / partial name / batch) rule vs its expansion on the same architecture; exhaustive over a small tree + Hypothesis",
-        text="Every compact specification is evaluated next to its expansion computed by the harness; verdicts must be equal, empty expansions must raise.",
+        text="Every compact specification is evaluated next to its expansion computed by the harness; verdicts must be equal, empty expansions must raise; the batch law is enumerated for all subject/object sets of 1-2 modules (overlapping and related sets included) on a small tree; rule objects are re-used across architectures in which a regex matches other modules.",
         note="Expansion uses re.match over the module list / the harness's own glob semantics.",
         ref="5 C11"),
     "C12": dict(
         technique="algebraic laws between implementation outcomes (duality, negation, decomposition, alias, monotonicity); exhaustive over a small tree incl. related names + Hypothesis batches",
-        text="All 1x1 subject/object pairs (related and identical included) on every import relation of a 5-module tree; monotonicity checked for every single-edge addition from verdict bit-vectors; random batches.",
+        text="All 1x1 subject/object pairs (related and identical included) on every import relation of a 5-module tree whose sibling names string-extend each other; monotonicity checked for every single-edge addition from verdict bit-vectors; random batches.",
         note="No reference model: laws relate runs of the implementation.",
         ref="5 C12"),
     "C13": dict(
         technique="exhaustive call-history enumeration against specification automata (Rule / LayerRule / DiagramRule), chain mutations, Hypothesis absent-name cases, exhaustive entry-point option matrix",
-        text="Every history classified must-error has to raise a non-assertion error and never return a verdict.",
+        text="Every history classified must-error has to raise a non-assertion error and never return a verdict; absent names are tried in rules, regex batches, layers and diagrams, also with a rule object that was first applied to an architecture in which the name exists; module_path is also spelt with '..'.",
         note="Automata written from the property text; histories with a repeated layers_that() are not classified.",
         ref="5 C13"),
     "C16": dict(
         technique="exhaustive call-sequence exploration (depth-first, cut at the first rejected call) against LayerBuilderModel / LayerRuleModel + Hypothesis longer sequences",
-        text="Accept/reject per call must agree with the model, and accepted definitions must expose exactly the supplied layers and modules.",
+        text="Accept/reject per call must agree with the model (incl. an empty layer named as subject), and accepted definitions must expose exactly the supplied layers and modules.",
         note="Behaviour after a rejected call is not judged.",
         ref="5 C16"),
     "C17": dict(
         technique="exhaustive alias subsets on a prefix-colliding tree + Hypothesis, label map compared with a component-wise reference at the intercepted drawing call",
-        text="All 2^9 alias maps on a fixed tree x spacing, plus random trees/alias maps/kwargs; labels, kwargs pass-through, spacing handling and unknown-alias rejection are checked.",
+        text="All alias maps on two fixed trees (one in which the aliased name recurs further down) x spacing, repeated visualize calls on one architecture with other alias texts, plus random trees/alias maps/kwargs incl. template-like alias texts; labels, kwargs pass-through, spacing handling and unknown-alias rejection are checked.",
         note="draw_networkx replaced by a recorder from the harness side.",
         ref="5 C17"),
     "C10": dict(
         technique="Hypothesis project trees x option sets + exhaustive pattern list on a fixed project; scans compared with an option-independent reference of internal/external parts (differential across configurations)",
-        text="Scans under {exclude, include, include+glob patterns, include+regex patterns} are compared with the default scan (internal part identical) and with the set of externals the import statements name minus those the patterns exclude.",
+        text="Scans under {exclude, include, include+glob patterns, include+regex patterns} are compared with the default scan (internal part identical) and with the set of externals the import statements name minus those the patterns exclude; imports of ancestor packages count as internal imports; the same request is repeated with paths relative to the working directory.",
         note="Ancestors of excluded-only externals are unconstrained; real temporary directories.",
         ref="5 C10"),
     "C14": dict(
         technique="metamorphic renaming: each abstract case is instantiated with a collision-free and an adversarial injective component renaming and the structured outcomes compared (exhaustive on an abstract 5-module tree + Hypothesis)",
-        text="Verdicts, parsed messages incl. layer tags, label maps and scanned module/import sets must be equal up to the renaming.",
+        text="Verdicts, parsed messages incl. layer tags, label maps and scanned module/import sets (absolute and relative paths, imports of names outside the root) must be equal up to the renaming.",
         note="Regex specifications are excluded; renamings are global injective maps on component tokens.",
         ref="5 C14"),
     "C15": dict(
-        technique="Hypothesis rule-based state machine over shared evaluables with a fresh-evaluation oracle and a snapshot invariant; permuted iterdir/exclusion order; 8-interpreter PYTHONHASHSEED differential",
-        text="Histories of up to 40 evaluations (new, re-applied, permuted) must leave the evaluables unchanged and agree with fresh evaluations; scans must not depend on directory order; outputs must be identical under 8 hash seeds.",
+        technique="Hypothesis rule-based state machine (every step recorded as data, replayable) over shared evaluables with a fresh-evaluation oracle and a snapshot invariant; permuted iterdir/exclusion order; 8-interpreter PYTHONHASHSEED differential",
+        text="Histories of up to 40 evaluations (new, re-applied to either architecture, re-targeted diagram rules, permuted lists) must leave the evaluables unchanged and agree with fresh evaluations; scans must not depend on directory order; outputs must be identical under 8 hash seeds.",
         note="Hash seeds and directory orders are sampled, not exhausted.",
         ref="5 C15"),
 }
@@ -134,7 +134,7 @@ def main():
         }],
         "checks": checks,
         "not_applicable": na,
-        "notes": "All checks: ./check <ID> --tier quick|thorough; VERIF_SEED selects the Hypothesis seeds; exit 2 = harness error. Genuine defects found were repaired in /repo by 'fix:' commits and are listed as 'fixed' in known_findings.json.",
+        "notes": "All checks: ./check <ID> --tier quick|thorough; VERIF_SEED selects the Hypothesis seeds; exit 2 = harness error. 36 genuine defects found were repaired in /repo by 'fix:' commits and are listed as 'fixed' in known_findings.json (no unrepaired known findings). Sensitivity: tools/selftest.py (reverse of every fix + hand-written mutants + 100 independently written regressions under seeded/), tools/mutate.py (systematic first-order mutation).",
     }
     (HERE / "MANIFEST.json").write_text(json.dumps(man, indent=1) + "\n")
 
